@@ -81,6 +81,9 @@ def run(F, rep, tier):
     # stays resolvable after its block (a scope the resolver forgets to close) is read as nil outside that block
     import c09
     c09.scope_rules(F, rep, "SCOPE")
+    # .. and once: a node lowered twice runs its effects twice
+    import c07
+    c07.single_visit(F, rep)
     # children are evaluated in the order the resolved tree lists them
     import engines
     engines.order_preserved(F, rep, "ORDER-PRESERVED", ["sylt_compiler::name_resolution::"],
